@@ -26,8 +26,8 @@
    compared with the same reference min_alt_del, which by min_alt_del_correct is THE minimum, so no further theorem is
    needed; AltDel_strict shows that on strict profiles the specification is C03's SP of the remaining rankings. *)
 From Coq Require Import List Arith NArith ZArith Bool Permutation.
-From PrefVerif Require Import Lib.Val Lib.Contig Lib.Subsets Model.SP Model.Deletion Model.ILPEnc
-                              Proofs.SP Proofs.Deletion Proofs.ILPEnc.
+From PrefVerif Require Import Lib.Val Lib.Contig Lib.Subsets Model.SP Model.Deletion Model.ILPEnc Model.ELPDP
+                              Model.Partition Proofs.SP Proofs.Deletion Proofs.ILPEnc Proofs.ELPDP.
 Import ListNotations.
 
 (* ---- the reference optimisers return the minimum ---------------------------------------------- *)
@@ -279,6 +279,61 @@ Theorem ilp_altdel_optimum : forall alts p z, NoDup alts -> Forall (complete_on 
 Proof. exact Proofs.ILPEnc.ilp_altdel_optimum. Qed.
 Print Assumptions ilp_altdel_optimum.
 
+(* ---- the dynamic programme of k_alternative_deletion.py (deepening: the algorithm is mirrored) -- *)
+(* Model/ELPDP.v mirrors longest_single_peaked_axis, get_L_sets, eligible_alternatives, last_check, place, case_2,
+   case_3, check_case_4, boundary and the loop of k_alt_partition_approx; votes are flat rankings.  The two places
+   where the iteration order of a CPython set matters are parameters (pair_first, ext_order); the theorems hold
+   for every choice (ext_order only has to return members of its argument; for termination of the partition loop,
+   all of them).  The mirror is total: every Python loop is a `for` over a finite range except the `while` of
+   k_alt_partition_approx, whose termination is part of approx_valid.
+   NOT proved: optimality (|removed| = min_alt_del, the theorem of Erdelyi, Lackner and Pfandler): it stays compared
+   with the verified reference up to 6 alternatives, and implementation = mirror in size at every size. *)
+
+(* the returned (axis, removed) is accepted by the verified certificate checker: "the deletion set has the reported
+   size and the remaining profile restricted to the remaining alternatives is single-peaked on the returned axis" *)
+Theorem elp_sound : forall (pair_first : N -> N -> bool) (ext_order : list (list N) -> list (list N)),
+  (forall l X, In X (ext_order l) -> In X l) ->
+  forall alts votes, NoDup alts -> (forall v, In v votes -> Permutation alts v) ->
+  let r := k_alternative_deletion pair_first ext_order alts votes in
+  cert_alt alts (map strictify votes) (length (snd r)) (fst r) (snd r) = true.
+Proof. exact Proofs.ELPDP.elp_sound. Qed.
+Print Assumptions elp_sound.
+
+Theorem elp_bound : forall (pair_first : N -> N -> bool) (ext_order : list (list N) -> list (list N)),
+  (forall l X, In X (ext_order l) -> In X l) ->
+  forall alts votes, NoDup alts -> (forall v, In v votes -> Permutation alts v) ->
+  (min_alt_del alts (map strictify votes) <= length (snd (k_alternative_deletion pair_first ext_order alts votes)))%nat.
+Proof. exact Proofs.ELPDP.elp_bound. Qed.
+Print Assumptions elp_bound.
+
+(* general form, for a subset alts of the alternatives of the votes (what k_alt_partition_approx calls) *)
+Theorem longest_axis_sound : forall (pair_first : N -> N -> bool) (ext_order : list (list N) -> list (list N)),
+  (forall l X, In X (ext_order l) -> In X l) ->
+  forall alts votes, NoDup alts -> (forall v, In v votes -> NoDup v /\ incl alts v) ->
+  let r := longest_axis pair_first ext_order alts votes in
+  NoDup (fst r) /\ incl (fst r) alts /\ Permutation alts (fst r ++ snd r) /\
+  sp_axis_profile (map strictify (map (restrict_ranking (fst r)) votes)) (fst r) = true.
+Proof. exact Proofs.ELPDP.longest_axis_sound. Qed.
+Print Assumptions longest_axis_sound.
+
+(* progress: with at least one vote and one alternative the axis is not empty *)
+Theorem longest_axis_nonempty : forall alts votes (pair_first : N -> N -> bool) (ext_order : list (list N) -> list (list N)),
+  (forall l X, In X l -> In X (ext_order l)) ->
+  NoDup alts -> alts <> [] -> votes <> [] -> (forall v, In v votes -> NoDup v /\ incl alts v) ->
+  fst (longest_axis pair_first ext_order alts votes) <> [].
+Proof. exact Proofs.ELPDP.longest_axis_nonempty. Qed.
+Print Assumptions longest_axis_nonempty.
+
+(* C18: the loop of k_alt_partition_approx terminates (no OutOfFuel) and its axes form a partition of the
+   alternatives into axes that are single-peaked for the restricted profile (Partition.partition_check) *)
+Theorem approx_valid : forall (pair_first : N -> N -> bool) (ext_order : list (list N) -> list (list N)),
+  (forall l X, In X (ext_order l) <-> In X l) ->
+  forall alts votes, NoDup alts -> votes <> [] -> (forall v, In v votes -> NoDup v /\ incl alts v) ->
+  exists axes, k_alt_partition_approx pair_first ext_order alts votes = Ok axes /\
+               partition_check alts votes axes = true.
+Proof. exact Proofs.ELPDP.approx_valid. Qed.
+Print Assumptions approx_valid.
+
 (* ---- non-vacuity ------------------------------------------------------------------------------ *)
 Open Scope N_scope.
 
@@ -323,3 +378,12 @@ Example C12_example_ilp :
   feasibleb (votdel_ilp alts p) (mk_asg (posn_axis alts [1;2;3;4]) (fun _ => false) (fun _ => false)) = false /\
   feasibleb (sp_ilp alts p) (mk_asg (posn_axis alts [1;2;3;4]) (fun _ => false) (fun _ => false)) = false.
 Proof. cbv zeta. repeat split; vm_compute; reflexivity. Qed.
+
+(* the mirrored dynamic programme on the cycle and on a 5-alternative profile (optimum 2) *)
+Example C12_example_elp :
+  k_alternative_deletion std_pair_first std_ext_order [1;2;3] [ [1;2;3] ; [2;3;1] ; [3;1;2] ] = ([1;3], [2]) /\
+  k_alternative_deletion std_pair_first std_ext_order [1;2;3;4;5]
+     [ [1;2;3;4;5] ; [3;5;1;4;2] ; [5;1;3;2;4] ; [2;4;1;5;3] ] = ([2;1;5], [3;4]) /\
+  min_alt_del [1;2;3;4;5] (map strictify [ [1;2;3;4;5] ; [3;5;1;4;2] ; [5;1;3;2;4] ; [2;4;1;5;3] ]) = 2%nat /\
+  k_alt_partition_approx std_pair_first std_ext_order [1;2;3] [ [1;2;3] ; [2;3;1] ; [3;1;2] ] = Ok [[1;3];[2]].
+Proof. repeat split; vm_compute; reflexivity. Qed.
